@@ -460,7 +460,9 @@ func TestC14Histories(t *testing.T) {
 				p := rapid.SampledFrom(names).Draw(rt, "shadowed")
 				pool = append(pool, fmt.Sprintf("let %s = %d; T | where a == %s and b < p1 | take lim", p, rapid.IntRange(0, 9).Draw(rt, "v"), p))
 			case 1:
-				pool = append(pool, "T | where not(isnull(a)) and tolower(b) == strcat('x', c) | summarize n = countif(iff(a > 1, true, false)), count() by now()")
+				pool = append(pool, "T | where not(isnull(a)) and tolower(b) == strcat('x', c) | summarize n = countif(iff(a > 1, true, false)), count() by now()",
+					"T | where not(a) < b | project c = 2 * not(a), d = -isnull(b)",
+					"T | summarize n = count() by k | render barchart with (title=\"t\", xcolumn=Loc.State)")
 			case 15:
 				// misspelt operator names: two different ones and the first again
 				pool = append(pool, "T | summarise count() by k", "T | wher a > 1 | project a", "T | projec a", "T | tak 1", "T | sumarize x = count()", "T | joins (U) on k", "T | Where a > 1")
